@@ -131,3 +131,36 @@ def h_7797_sign_records_the_chosen_kid():
 h_7797_sign_records_the_chosen_kid.seeds = [{"kid1": "a", "kid2": "b", "k1": b"one", "k2": b"two", "p": 0}, {"kid1": "a", "kid2": "b", "k1": b"one", "k2": b"two", "p": 1}]
 h_import_export_preserves_every_key.seeds = [{"kid1": "a", "kid2": "b", "k1": b"one", "k2": b"two"}]
 HARNESSES = [h_import_export_preserves_every_key, h_7797_sign_records_the_chosen_kid, h_get_by_kid, h_every_key_has_kid, h_verify_uses_the_named_key, h_sign_records_the_chosen_kid, h_callable_key]
+
+
+def h_json_sign_records_the_chosen_kid():
+    """JSON serializations (plain RFC 7515 and the RFC 7797 helper, b64 true/false/absent, member with or without an
+    unprotected header): the kid of the key picked from the set is in the produced token, which then verifies against the set."""
+    from joserfc.rfc7797 import serialize_json as s7797j, deserialize_json as d7797j
+    k1, k2, b1, b2, kid1, kid2 = _two_keys()
+    ks = KeySet([k1, k2])
+    api = sym_choice("api", ["rfc7515", "rfc7797-b64-false", "rfc7797-plain"])
+    member = {"protected": {"alg": "HS256"}}
+    if api == "rfc7797-b64-false":
+        member = {"protected": {"alg": "HS256", "b64": False, "crit": ["b64"]}}
+    if sym_choice("with_header", [False, True]):
+        member["header"] = {"cty": "x"}
+    p = b"hello"
+    if api == "rfc7515":
+        out = call(jws.serialize_json, member, p, ks, ["HS256"])
+    else:
+        out = call(s7797j, member, p, ks, ["HS256"])
+    check(out.returned, "JSON signing with a key set returns")
+    if not out.returned:
+        return
+    hdr = out.value.get("header")
+    check(isinstance(hdr, dict) and (py_eq(hdr.get("kid"), kid1) or py_eq(hdr.get("kid"), kid2)), "JSON: the produced token carries the kid of the key picked from the set")
+    if api == "rfc7515":
+        back = call(jws.deserialize_json, out.value, ks, ["HS256"])
+    else:
+        back = call(d7797j, out.value, ks, ["HS256"])
+    check(back.returned, "JSON: the token produced with a key picked from the set verifies against that set")
+
+
+h_json_sign_records_the_chosen_kid.seeds = [{"kid1": "a", "kid2": "b", "k1": b"one", "k2": b"two", "api": i, "with_header": j} for i in range(3) for j in range(2)]
+HARNESSES.append(h_json_sign_records_the_chosen_kid)
